@@ -1322,6 +1322,12 @@ _bucket_setstate(Bucket *self, PyObject *state)
 
     len = PyTuple_Size(items);
     ASSERT(len >= 0, "_bucket_setstate: items tuple has negative size", -1);
+    if (len % 2) {
+        /* keys and values alternate: an odd item would silently be dropped */
+        PyErr_SetString(PyExc_TypeError,
+                        "state of a mapping bucket must hold key/value pairs");
+        return -1;
+    }
     len /= 2;
 
     for (i = self->len; --i >= 0; ) {
